@@ -37,6 +37,9 @@ func (fe *BaseFieldElementG1) UnmarshalCBOR(data []byte) error {
 	if err != nil {
 		return errs.Wrap(err).WithMessage("failed to unmarshal base field element")
 	}
+	if dto == nil {
+		return errs.Wrap(serde.ErrNull).WithMessage("failed to unmarshal base field element")
+	}
 	e, err := NewG1BaseField().FromBytes(dto.FieldBytes)
 	if err != nil {
 		return errs.Wrap(err).WithMessage("cannot deserialize base field element")
@@ -60,6 +63,9 @@ func (fe *BaseFieldElementG2) UnmarshalCBOR(data []byte) error {
 	dto, err := serde.UnmarshalCBOR[*baseFieldElementG2DTO](data)
 	if err != nil {
 		return errs.Wrap(err).WithMessage("failed to unmarshal base field element")
+	}
+	if dto == nil {
+		return errs.Wrap(serde.ErrNull).WithMessage("failed to unmarshal base field element")
 	}
 	e, err := NewG2BaseField().FromBytes(dto.FieldBytes)
 	if err != nil {
@@ -85,6 +91,9 @@ func (s *Scalar) UnmarshalCBOR(data []byte) error {
 	if err != nil {
 		return errs.Wrap(err).WithMessage("failed to unmarshal scalar")
 	}
+	if dto == nil {
+		return errs.Wrap(serde.ErrNull).WithMessage("failed to unmarshal scalar")
+	}
 	e, err := NewScalarField().FromBytes(dto.FieldBytes)
 	if err != nil {
 		return errs.Wrap(err).WithMessage("cannot deserialize scalar")
@@ -109,6 +118,9 @@ func (p *PointG1) UnmarshalCBOR(data []byte) error {
 	if err != nil {
 		return errs.Wrap(err).WithMessage("failed to unmarshal point")
 	}
+	if dto == nil {
+		return errs.Wrap(serde.ErrNull).WithMessage("failed to unmarshal point")
+	}
 	e, err := NewG1().FromCompressed(dto.AffineCompressedBytes)
 	if err != nil {
 		return errs.Wrap(err).WithMessage("cannot deserialize point")
@@ -132,6 +144,9 @@ func (p *PointG2) UnmarshalCBOR(data []byte) error {
 	dto, err := serde.UnmarshalCBOR[*pointG2DTO](data)
 	if err != nil {
 		return errs.Wrap(err).WithMessage("failed to unmarshal point")
+	}
+	if dto == nil {
+		return errs.Wrap(serde.ErrNull).WithMessage("failed to unmarshal point")
 	}
 	e, err := NewG2().FromCompressed(dto.AffineCompressedBytes)
 	if err != nil {
